@@ -12,7 +12,7 @@ func init() {
 		Explanation: "A narrow claim: byte-for-byte equality of the pipe over all write/read size sequences is a value property and is NOT decided. Decided are structural necessary conditions on every path: (1) every reader entry point that takes a size establishes size >= 1 (or returns) before it touches the front slice or waits; (2) Peek consumes nothing — its transitive body neither advances a read cursor outside bufferSlice.peek's save/restore pair, nor unlinks a slice, nor changes Len, and bufferSlice.peek restores the cursor on every path; " +
 			"(3) Len bookkeeping is paired with consumption/production: on every successful path of each consuming entry point the length is decreased exactly once by the amount that bounded the consumption, on every path of each producing entry point it is increased exactly once, and nothing else writes it (except the reset in clean); (4) the slice cursors are only written by the slice's own methods. " +
 			"NOT decided: slice-boundary arithmetic (fast/slow path cut-offs, Reserve's skip-to-next-slice, empty-slice unlinking), fallback vs shared-memory equivalence.",
-		RuleText: "R06.1 dominating size guard per front()/readMore use in sized reader entry points; R06.2 effect census over Peek's transitive body + must-pass-through of the cursor restore; R06.3 per success return: exactly one length adjustment, with the operand's provenance; census of every store to linkedBuffer.len; R06.4 census of stores to bufferSlice.readIndex/writeIndex.",
+		RuleText: "R06.1 dominating size guard per front()/readMore use in sized reader entry points; R06.2 effect census over Peek's transitive body + must-pass-through of the cursor restore; R06.3 per success return: exactly one length adjustment, with the operand's provenance; census of every store to linkedBuffer.len; R06.4 census of stores to bufferSlice.readIndex/writeIndex; R06.5 escape analysis of every alias of a wire handler's buffer parameter (through slices, phis and local callees).",
 		Run:      runC06,
 	})
 }
@@ -212,6 +212,9 @@ func runC06(p *P, r *R) {
 		}
 		r.ob("R06.3", "Len() reports the tracked length", p.pos(lf.Pos()), ok, false, "")
 	}
+
+	// ---- R06.5 socket-fallback payload must be copied out of the connection's read buffer
+	noEscapeOfEventBuffer(p, r, "R06.5")
 
 	// ---- R06.4 cursor writers
 	cursorOwners := map[string]bool{
